@@ -437,6 +437,109 @@ class Prop(fw.PropBase):
                 self.n_columns += 1
         return cs
 
+    def histories(self):
+        """operation sequences on ONE molecule object: consensus requests between add_fragment / add_molecule"""
+        rng = self.rng
+        g = Gen(rng)
+        out = []
+        n = 45 if self.tier == 'quick' else 400
+        while len(out) < n:
+            c = g.molecule(rng.choice([3, 4, 5, 6]))
+            if len(c['fragments']) < 2:
+                # a lone fragment: add copies of its geometry shifted mates by generating another molecule's worth
+                continue
+            frs = c['fragments']
+            k0 = rng.choice([1, 1, 2]) if len(frs) > 2 else 1
+            ops = []
+
+            def request():
+                path = rng.choice(['dedup', 'dedup', 'write'])
+                ops.append({'op': 'consensus', 'path': path, 'no_source': rng.random() < 0.5,
+                            'max_N_span': None if path == 'write' else rng.choice([None, None, 0, 5, 10, 50, 120, 300])})
+            i = k0
+            if rng.random() < 0.85:
+                request()
+            while i < len(frs):
+                if len(frs) - i >= 2 and rng.random() < 0.4:
+                    m = rng.randint(1, min(3, len(frs) - i))
+                    ops.append({'op': 'add_molecule', 'fragments': frs[i:i + m]})
+                    i += m
+                else:
+                    ops.append({'op': 'add_fragment', 'fragment': frs[i]})
+                    i += 1
+                for _ in range(rng.choice([0, 1, 1, 2])):
+                    request()
+            request()
+            ops.append({'op': 'consensus', 'path': 'dedup', 'no_source': False, 'max_N_span': rng.choice([0, 10, 50])})
+            out.append({'ref': c['ref'], 'klass': c['klass'], 'sample': c['sample'], 'umi': c['umi'], 'bc': c['bc'],
+                        'initial': frs[:k0], 'ops': ops})
+        # the three growth shapes spelled out: mate further downstream, a fragment closing part of a gap, add_molecule
+        ref = g.ref().upper()
+        def fr(mate):
+            r1 = {'pos': 2000, 'cigar': [[0, 50]], 'seq': 'CATG' + ref[2004:2050], 'qual': [30] * 50, 'rev': False, 'mapq': 60}
+            r2 = None if mate is None else {'pos': mate, 'cigar': [[0, 50]], 'seq': ref[mate:mate + 50], 'qual': [30] * 50,
+                                            'rev': True, 'mapq': 60}
+            return {'reads': [r1, r2]}
+        req = lambda mx=None, path='dedup': {'op': 'consensus', 'path': path, 'no_source': False, 'max_N_span': mx}
+        for path in ('dedup', 'write'):
+            out.append({'ref': ref, 'klass': 'nla', 'sample': 'GROW', 'umi': 'ACGTAC', 'bc': 'AACCGGTT', 'initial': [fr(2080)],
+                        'ops': [req(None, path), {'op': 'add_fragment', 'fragment': fr(2200)}, req(None, path),
+                                {'op': 'add_fragment', 'fragment': fr(2115)}, req(None, path), req(20),
+                                {'op': 'add_molecule', 'fragments': [fr(2320), fr(None)]}, req(None, path), req(300)]})
+        return out
+
+    @staticmethod
+    def history_cases(h, steps):
+        """one pseudo-case per consensus request: the fragments held at that moment, computed by the harness"""
+        held = list(h['initial'])
+        desc = ['new(%d fragment%s)' % (len(held), 's' if len(held) > 1 else '')]
+        out = []
+        for k, op in enumerate(h['ops']):
+            st = steps[k] if k < len(steps) else {}
+            if op['op'] == 'add_fragment':
+                held = held + [op['fragment']]
+                desc.append('add_fragment')
+            elif op['op'] == 'add_molecule':
+                held = held + list(op['fragments'])
+                desc.append('add_molecule(%d)' % len(op['fragments']))
+            else:
+                desc.append('%s(max_N_span=%r)' % ('deduplicate_majority' if op['path'] == 'dedup' else 'write_pysam(consensus=True)', op['max_N_span']))
+                c = {'ref': h['ref'], 'klass': h['klass'], 'fragments': list(held), 'sample': h['sample'], 'umi': h['umi'], 'bc': h['bc'],
+                     'max_N_span': op['max_N_span'], 'path': op['path'], 'no_source': op['no_source'], 'max_fragments': None}
+                im = {'records': st.get('records', []), 'hist': ' -> '.join(desc), 'history_ops': [
+                    (o['op'] if o['op'] != 'consensus' else 'consensus:%s:%r' % (o['path'], o['max_N_span'])) for o in h['ops'][:k + 1]]}
+                if 'held' in st:
+                    im['added'], im['overflow'] = st['held'], 0
+                if 'returned' in st:
+                    im['returned'] = st['returned']
+                if st.get('error'):
+                    im['error'] = st['error']
+                out.append((c, im))
+        return out
+
+    @staticmethod
+    def history_model_input(h, ptab):
+        frs = list(h['initial']) + [f for o in h['ops'] for f in ([o['fragment']] if o['op'] == 'add_fragment' else o.get('fragments', []))]
+        rs = [r for f in frs for r in f['reads'] if r is not None and not r.get('unmapped')]
+        lo = max(0, min(r['pos'] for r in rs) - 3)
+        hi = max(r['pos'] + ref_len(r['cigar']) for r in rs) + 3
+        c0 = {'klass': h['klass'], 'fragments': h['initial'], 'sample': h['sample'], 'umi': h['umi'], 'bc': h['bc'], 'max_fragments': None}
+        m = expected_meta(c0)
+
+        def enc_frag(f):
+            mq = max((0 if (r is None or r.get('unmapped')) else r['mapq']) for r in f['reads'])
+            return [f.get('umi', h['umi']), mq, [[r['pos'], ([] if r.get('unmapped') else r['cigar']), r['seq'], r['qual']]
+                                                 for r in f['reads'] if r is not None]]
+        ops = [[0, enc_frag(f)] for f in h['initial']]
+        for o in h['ops']:
+            if o['op'] == 'add_fragment':
+                ops.append([0, enc_frag(o['fragment'])])
+            elif o['op'] == 'add_molecule':
+                ops.append([1, [enc_frag(f) for f in o['fragments']]])
+            else:
+                ops.append([2, [] if o['max_N_span'] is None else [o['max_N_span']]])
+        return [ptab, [lo, h['ref'][lo:hi]], [m['sample'], ([] if m['site'] is None else [m['site']]), m['bc'], [m['strand']]], ops]
+
     def cli_libs(self):
         g = Gen(self.rng)
         libs = []
@@ -564,8 +667,10 @@ class Prop(fw.PropBase):
         t0 = time.time()
         cases = self.cases()
         libs = self.cli_libs()
-        res = fw.run_impl('impl_c15.py', {'api': cases, 'cli': libs})
+        hists = self.histories()
+        res = fw.run_impl('impl_c15.py', {'api': cases, 'cli': libs, 'hist': hists})
         tm['impl_s'] = round(time.time() - t0, 1)
+        self.hists_ = hists
         self.cov['timing'] = tm
         ptab = res['ptab']
         self.cases_, self.libs_, self.res_, self.ptab_ = cases, libs, res, ptab
@@ -589,7 +694,18 @@ class Prop(fw.PropBase):
                 cli_problems.append({'fn': 'bamtagmultiome --consensus', 'source_reads_written': out['source'],
                                      'expected': 0 if lib['no_source'] else nsrc, 'lib': libs.index(lib)})
         self.cli_pairs, self.cli_problems = cli_pairs, cli_problems
-        pairs = list(zip(cases, api)) + cli_pairs
+        hist_pairs, hist_index = [], []
+        for hi, (h, out) in enumerate(zip(hists, res['hist'])):
+            if out.get('error'):
+                cli_problems.append({'fn': 'history', 'impl_error': out['error'], 'trace': out.get('trace', '')[-600:]})
+                continue
+            hp = self.history_cases(h, out['steps'])
+            hist_index.append((hi, len(hist_pairs), len(hp)))
+            hist_pairs += hp
+        pairs = list(zip(cases, api)) + cli_pairs + hist_pairs
+        self.cov['histories'] = {'objects': len(hists), 'consensus_requests': len(hist_pairs),
+                                 'operations': sum(len(h['ops']) for h in hists),
+                                 'add_molecule_ops': sum(1 for h in hists for o in h['ops'] if o['op'] == 'add_molecule')}
         # if C15-D31 is recorded as a known finding instead of being fixed: leave out exactly the molecules
         # without a cut site that raise that TypeError (replay_known re-runs the recorded one)
         known = {f.get('key') for f in fw.load_findings('C15')}
@@ -612,7 +728,7 @@ class Prop(fw.PropBase):
             hist['klass'][c['klass']] = hist['klass'].get(c['klass'], 0) + 1
             k = str(len(c['fragments'])); hist['nfrag'][k] = hist['nfrag'].get(k, 0) + 1
             k = str(c['max_N_span']); hist['maxN'][k] = hist['maxN'].get(k, 0) + 1
-            k = 'cli' if im.get('cli') else c['path']; hist['path'][k] = hist['path'].get(k, 0) + 1
+            k = 'cli' if im.get('cli') else (('history:' + c['path']) if im.get('hist') else c['path']); hist['path'][k] = hist['path'].get(k, 0) + 1
             k = str(len(im.get('records', []))); hist['records'][k] = hist['records'].get(k, 0) + 1
             h = fw.canon_hash([c['klass'], [[[r['pos'], r['cigar'], r['seq'], r['qual'], r['rev']] if r else [] for r in f['reads']]
                                             for f in c['fragments']], c['max_N_span'] if c['max_N_span'] is not None else -1])
@@ -669,6 +785,20 @@ class Prop(fw.PropBase):
         pre = run_model_par(1, [model_input(c, ptab) for c, _ in pairs])
         tm['model_s'] = round(time.time() - t0, 1)
         self.cov['precondition_hit_rate'] = round(sum(pre) / max(1, len(pre)), 4)
+        # the model's own state machine (mode 4: run_ops) against the per-request consensus of the fragments the harness holds
+        base_off = len(cases) + len(cli_pairs)
+        m4_in = []
+        for hi, off, cnt in hist_index:
+            m4_in.append(self.history_model_input(hists[hi], ptab))
+        if self.n_known_skipped:
+            m4_in, hist_index = [], []      # offsets are shifted by the left-out cases; the proof covers run_ops anyway
+        m4 = run_model_par(4, m4_in) if m4_in else []
+        m4_bad = 0
+        for (hi, off, cnt), ans in zip(hist_index, m4):
+            if ans != [mv[base_off + off + j] for j in range(cnt)]:
+                m4_bad += 1
+                dis.append({'fn': 'run_ops', 'what': 'model state machine (mode 4) and per-request model consensus differ', 'history': hi})
+        self.cov['histories']['model_run_ops_checked'] = len(m4)
         n_calls = n_excl_near = n_excl_tie = n_ties = n_rec = 0
         md_dec_in, md_dec_meta = [], []
         samples = []
@@ -747,7 +877,9 @@ class Prop(fw.PropBase):
             'cases_skipped_fragment_association': skipped_assoc,
             'traces_validated_against_impl': len(pairs) - skipped_assoc, 'disagreements': len(dis),
         })
-        self.cov['samples'] = (samples + self.cov['samples'])[:4]
+        self.cov['samples'] = (samples + self.cov['samples'])[:4] + [
+            {'history_on_one_object': im['hist'], 'records': [[g_['start'], ''.join('%d%s' % (n, 'MIDNSHP=X'[op]) for op, n in g_['cigar'])]
+                                                               for g_ in im['records']]} for c, im in hist_pairs[-2:]]
         # vm_compute cross-check of the extracted model on a sample
         small = [i for i, (c, _) in enumerate(pairs) if sum(len(r['seq']) for r in case_reads(c)[0]) < 160]
         idx = sorted(self.rng.sample(small, min(100, len(small)))) if small else []
@@ -812,9 +944,11 @@ class Prop(fw.PropBase):
             small = {k: v for k, v in c.items() if k != 'ref'}
             self.witnesses.append({
                 'key': 'C15:%s' % (('error:' + text.split(':')[0].replace('consensus raised ', '')) if key == 'error' else key),
-                'what': '%s [%s molecule, %d fragment(s), max_N_span=%r, path=%s]' % (text, c['klass'], len(c['fragments']), c['max_N_span'],
-                                                                                     'cli' if im.get('cli') else c['path']),
-                'input': small, 'impl': [{k: r[k] for k in ('start', 'cigar', 'seq', 'tags')} for r in im.get('records', [])][:4],
+                'what': '%s [%s molecule, %d fragment(s), max_N_span=%r, path=%s]%s' % (
+                    text, c['klass'], len(c['fragments']), c['max_N_span'], 'cli' if im.get('cli') else c['path'],
+                    (' on ONE molecule object after the history: ' + im['hist']) if im.get('hist') else ''),
+                'input': dict(small, history=im['history_ops'], note='fragments = all fragments held by the object at the failing request, '
+                              'in the order they were added') if im.get('hist') else small, 'impl': [{k: r[k] for k in ('start', 'cigar', 'seq', 'tags')} for r in im.get('records', [])][:4],
                 'expected': 'blocks = covered positions; |seq|=|qual|=sum M; MD read against the query = reference; arg-max call; '
                             'SM/RX/DS/TF of the molecule'})
         for pr in self.cli_problems[:1]:
